@@ -24,6 +24,9 @@ RULE = ('exhaustive: all 4096 subsets of the 12 value modifiers x {dtml-var '
         'written order).  Non-trivial: the option set contains at '
         'least one modifier / format that rewrites the string (anything but '
         'plain insertion).  Cases are distinct by construction.')
+RULE += (
+         'Identity formats (fmt="%s", s conversion) together with '
+         'html_quote are escaped once. ')
 ASSUMPTIONS = [
     'literal template text and etc strings contain no "<"',
     'a rendering that raises contributes no output (allowed)',
